@@ -112,6 +112,31 @@ def gen_random(rng: random.Random, tier: str) -> dict:
             "null_prefix": rng.choice([0, 0, 0, 1, 99, 100, 101, 140])}
 
 
+def boolean_parts(mm):
+    """Names/dtypes of parts of a model matrix that hold booleans rather than numbers."""
+    import pandas as pd
+    import scipy.sparse as sp
+
+    obj = getattr(mm, "__wrapped__", mm)
+    if sp.issparse(obj):
+        return [str(obj.dtype)] if obj.dtype.kind == "b" else []
+    if isinstance(obj, pd.DataFrame):
+        return [f"{c}:{d}" for c, d in obj.dtypes.items() if str(d).lower().startswith("bool")]
+    if isinstance(obj, np.ndarray):
+        if obj.dtype.kind == "b":
+            return ["bool ndarray"]
+        if obj.dtype == object:
+            return ["object ndarray with bool cells"] if any(isinstance(v, (bool, np.bool_)) for v in obj.ravel()) else []
+        return []
+    try:  # arrow / narwhals
+        schema = getattr(obj, "schema", None)
+        if schema is not None:
+            return [f"{n}:{t}" for n, t in zip(schema.names, schema.types) if str(t).lower().startswith("bool")]
+    except Exception:  # noqa: BLE001
+        pass
+    return []
+
+
 def judge(case) -> Outcome:
     import pandas as pd
     import pyarrow as pa
@@ -177,6 +202,11 @@ def judge(case) -> Outcome:
         out.fail("c08.non_numeric_cell", f"{tag}: {e}; columns {colnames(mm)}")
         return out
     names = colnames(mm)
+    if not is_num:
+        bad = boolean_parts(mm)
+        if bad:  # indicator columns are numbers (0/1), not truth values: X.T @ X must be arithmetic
+            out.fail("c08.boolean_cells", f"{tag}: indicator columns come back as truth values ({bad}), not numbers")
+            return out
     if is_num:
         keep = [i for i in range(n) if not (with_null and i == 1 and dtype in ("Int64", "Float64", "boolean", "float32", "float64", "arrow_int64", "arrow_float64"))]
     else:
